@@ -15,6 +15,70 @@ NPROG = {"quick": 100, "thorough": 1200}
 NREAL = {"quick": 4, "thorough": 24}
 NARR = {"quick": 1, "thorough": 3}
 
+
+def A(kind, n, **kw):
+    return [6, dict(kind=kind, n=n, dtype=kw.pop("dtype", "cfg"), **kw)]
+
+
+NS = lambda occ: {"cls": "NumberState", "modes": [], "params": {"occupation_numbers": [5, occ]}}  # noqa: E731
+VAC = {"cls": "Vacuum", "modes": [], "params": {}}
+BS = lambda a, b: {"cls": "Beamsplitter", "modes": [a, b], "params": {"theta": [0, 0.63], "phi": [0, 0.3]}}  # noqa: E731
+SQ = lambda m: {"cls": "Squeezing", "modes": [m], "params": {"r": [0, 0.3]}}  # noqa: E731
+PNM = {"cls": "ParticleNumberMeasurement", "modes": [], "params": {}}
+DET = lambda n: {"cls": "ImperfectParticleNumberMeasurement", "modes": [], "params": {"detector_efficiency_matrix": A("detector", n)}}  # noqa: E731
+# (simulator, d, cutoff, instructions before, the instruction taking arrays, instructions after)
+ARRAY_PROGRAMS = [
+    ("sampling", 3, None, [NS([1, 1, 0]), BS(0, 1), BS(1, 2)], DET(3), []),
+    ("purefock", 2, 4, [NS([1, 1]), BS(0, 1)], DET(3), []),
+    ("fock", 2, 3, [VAC, SQ(0), BS(0, 1)], DET(3), []),
+    ("gaussian", 2, 3, [VAC, SQ(0), BS(0, 1)], DET(3), []),
+    ("sampling", 3, None, [NS([1, 1, 0])], {"cls": "Interferometer", "modes": [0, 1, 2], "params": {"matrix": A("unitary", 3, seed=4)}}, [PNM]),
+    ("purefock", 3, 3, [NS([1, 1, 0])], {"cls": "Interferometer", "modes": [0, 1, 2], "params": {"matrix": A("unitary", 3, seed=4)}}, [PNM]),
+    ("fock", 2, 3, [VAC, SQ(0)], {"cls": "Interferometer", "modes": [0, 1], "params": {"matrix": A("unitary", 2, seed=4)}}, [PNM]),
+    ("gaussian", 3, None, [VAC, SQ(0)], {"cls": "Interferometer", "modes": [0, 1, 2], "params": {"matrix": A("unitary", 3, seed=4)}}, [PNM]),
+    ("sampling", 3, None, [NS([1, 1, 0])], {"cls": "LossyInterferometer", "modes": [0, 1, 2], "params": {"matrix": A("lossy", 3, seed=4)}}, [PNM]),
+    ("gaussian", 2, None, [VAC, SQ(0)], {"cls": "GaussianTransform", "modes": [0, 1], "params": {"passive": A("unitary", 2, seed=3), "active": A("zeros", 2, complex=True)}}, [PNM]),
+    ("purefock", 2, 4, [VAC, SQ(0)], {"cls": "GaussianTransform", "modes": [0, 1], "params": {"passive": A("unitary", 2, seed=3), "active": A("zeros", 2, complex=True)}}, [PNM]),
+    ("gaussian", 2, None, [VAC], {"cls": "Covariance", "modes": [], "params": {"cov": A("cov", 4)}}, [BS(0, 1), PNM]),
+    ("gaussian", 2, None, [VAC], {"cls": "Mean", "modes": [], "params": {"mean": A("vector", 4)}}, [BS(0, 1), PNM]),
+    ("gaussian", 2, None, [], {"cls": "Thermal", "modes": [], "params": {"mean_photon_numbers": A("vector", 2)}}, [BS(0, 1), PNM]),
+    ("gaussian", 2, None, [VAC, SQ(0), BS(0, 1)], {"cls": "GeneraldyneMeasurement", "modes": [0], "params": {"detection_covariance": A("eye", 2)}}, []),
+    ("gaussian", 2, None, [VAC, SQ(0)], {"cls": "DeterministicGaussianChannel", "modes": [0], "params": {"X": A("eye", 2, scale=0.9), "Y": A("eye", 2, scale=0.5)}}, [PNM]),
+    ("gaussian", 3, None, [VAC], {"cls": "Graph", "modes": [0, 1, 2], "params": {"adjacency_matrix": A("adjacency", 3, seed=2)}}, [PNM]),
+    ("purefock", 2, 4, [NS([1, 1]), BS(0, 1)], {"cls": "SNAP", "modes": [0], "params": {"theta": A("vector", 4)}}, [PNM]),
+    ("fock", 2, 3, [VAC, SQ(0)], {"cls": "SNAP", "modes": [0], "params": {"theta": A("vector", 3)}}, [PNM]),
+    ("sampling", 2, None, [NS([1, 1])], {"cls": "Loss", "modes": [0], "params": {"transmissivity": A("vector", 1)}}, [PNM]),
+    ("sampling", 2, None, [], {"cls": "DistinguishableNumberState", "modes": [], "params": {"occupation_numbers": [5, [1, 1]], "particle_overlap": A("overlap", 2)}}, [BS(0, 1), PNM]),
+]
+# (layout, dtype of the array relative to the config, config dtype)
+ARRAY_VARIANTS = [("C", "same", "float64"), ("F", "same", "float64"), ("C", "other", "float64"), ("list", "same", "float64"),
+                  ("readonly", "same", "float64"), ("strided", "same", "float64"), ("C", "same", "float32")]
+
+
+def array_cases(rng, thorough):
+    """Every instruction class taking arrays, on the simulators that have it: the aliasing case (a
+    C-contiguous ndarray of the config's dtype) always, with finite shots and shots=None; the
+    other layouts / dtypes all in the thorough tier, one per program (drawn) in the quick tier."""
+    import copy as _copy
+    out = []
+    for pi, (sim, d, cutoff, pre, ins, post) in enumerate(ARRAY_PROGRAMS):
+        variants = ARRAY_VARIANTS if thorough else [ARRAY_VARIANTS[0], ARRAY_VARIANTS[1 + rng.randrange(len(ARRAY_VARIANTS) - 1)]]
+        for vi, (layout, rel, cfg) in enumerate(variants):
+            for shots in ((3, None) if (vi == 0 or thorough) else (3,)):
+                ins2 = _copy.deepcopy(ins)
+                for k, v in ins2["params"].items():
+                    if v[0] == 6:
+                        real = {"float64": "float64", "float32": "float32"}[cfg]
+                        if rel == "other":
+                            real = "float32" if cfg == "float64" else "float64"
+                        v[1]["dtype"] = real
+                        v[1]["layout"] = layout
+                case = {"sim": sim, "d": d, "cutoff": cutoff, "seed": rng.randint(1, 10 ** 6), "shots": shots,
+                        "dtype": cfg, "prog": pre + [ins2] + post, "faults": "tail3" if thorough else "tail2",
+                        "no_other": vi > 0, "array_instruction": ins["cls"], "variant": [layout, rel, cfg]}
+                out.append(case)
+    return out
+
 VARIANTS = {1: "repaired", 2: "before the fixes", 4: "try/finally only", 8: "caller's string kept only",
             16: "try/finally + string kept, validation not moved up front"}
 
@@ -386,7 +450,11 @@ def run(chk: Check):
 
     # ------------------------------------------------------------------ shipped simulators, fault at every call
     real_cases = gen_real_cases(rng, NREAL[chk.tier])
+    n_plain = len(real_cases)
+    real_cases += array_cases(rng, T)
     impl2 = run_impl("c12_impl.py", {"real": real_cases, "globals": {},
+                                     "initstate": {"sims": ["purefock", "fock", "gaussian", "sampling"], "seed": rng.randint(1, 10 ** 6),
+                                                   "faults": "tail3" if T else "tail1"},
                                      "arrays": {"tests": [{"n": n, "seed": 100 + k} for k, n in enumerate([2, 3, 4, 6] * NARR[chk.tier])]}},
                      timeout=3000)
     nreal = nreal_nt = 0
@@ -402,8 +470,14 @@ def run(chk: Check):
                                   "program": case["prog"], "prep": case.get("prep"), "fault_at_call": r["fault_at"],
                                   "calls": r["kinds"], "result": r["result"], "before": r["prog_before"], "after": r["prog_after"]})
 
-    for case, res in zip(real_cases, impl2["real"]):
+    narrp = narrp_nt = 0
+    for ci2, (case, res) in enumerate(zip(real_cases, impl2["real"])):
         clean = res["runs"][0]
+        if ci2 >= n_plain:
+            narrp += len(res["runs"])
+            narrp_nt += sum(1 for r in res["runs"] if r["ncalls"] >= 3)
+            nreal -= len(res["runs"])
+            nreal_nt -= sum(1 for r in res["runs"] if r["fault_at"] is not None and r["kinds"] and r["fault_at"] >= 4)
         for r in res["runs"]:
             nreal += 1
             failed = r["result"][0] != "ok"
@@ -426,7 +500,13 @@ def run(chk: Check):
                 if x[3] != y[3] or x[0] != y[0]:
                     real_violation("C12:execute:condition-changed", "instruction %d" % idx, case, r)
             if not r["state_same"]:
-                real_violation("C12:execute:initial-state-changed", "arrays or config of the initial_state argument differ afterwards", case, r)
+                real_violation("C12:execute:initial-state-changed", "arrays or config of the initial_state argument differ afterwards: %s" % r.get("state_diff"), case, r)
+            if not r.get("handed_same", True) or not r.get("rerun_handed_same", True):
+                real_violation("C12:execute:array-parameter-modified",
+                               "an ndarray handed to %s (layout/dtype relative to config/config dtype %s, shots=%s) has other bytes afterwards: %s"
+                               % (case.get("array_instruction", "an instruction"), case.get("variant"), case["shots"], r.get("handed_diff")), case, r)
+            if not r.get("params_identity", True):
+                real_violation("C12:execute:array-parameter-replaced", "instruction.params no longer holds the caller's ndarray object", case, r)
             if not r["config_same"]:
                 real_violation("C12:execute:user-config-changed", "attributes of the caller's Config differ afterwards", case, r)
             if not r["global_random_same"]:
@@ -446,6 +526,61 @@ def run(chk: Check):
                nreal, nreal_nt, kind="search",
                samples=[{"sim": c["sim"], "prog": c["prog"], "runs": len(x["runs"])} for c, x in list(zip(real_cases, impl2["real"]))[:1]],
                note="the caller's Config.rng state advanced in %d runs (Config.copy shares the Generator by design; not counted)" % rng_shared)
+
+    ran = sum(1 for c, x in zip(real_cases[n_plain:], impl2["real"][n_plain:]) if x["runs"][0]["result"][0] == "ok")
+    chk.stream("ndarray parameters of every array-taking instruction (detector matrices, interferometers, Gaussian blocks, adjacency, "
+               "covariances, SNAP angles): C-contiguous of the config dtype and other layouts/dtypes, shots finite and None, clean and "
+               "failing runs; bytes before == after (search)", narrp, narrp_nt, kind="search",
+               samples=[{"sim": c["sim"], "instruction": c["array_instruction"], "variant": c["variant"], "shots": c["shots"]}
+                        for c in real_cases[n_plain:n_plain + 2]],
+               note="%d programs, %d of them execute to the end" % (len(real_cases) - n_plain, ran))
+
+    # ---- initial_state handed to [every instruction of the simulator's map, a gate]; second execution
+    init_res = impl2["initstate"]
+    ninit = ninit_nt = 0
+    changed = {}
+    for x in init_res:
+        if "runs" in x:
+            for r in x["runs"]:
+                for pth in r.get("changed_paths", []):
+                    changed.setdefault(x["case"]["sim"], set()).add(pth)
+    skipped = [x["skip"] for x in init_res if "skip" in x]
+    for x in init_res:
+        if "error" in x:
+            corr_broken.append("initial_state stream: runner failed on %s/%s: %s" % (x["case"]["sim"], x["case"]["first"], x["error"]))
+            continue
+        if "runs" not in x:
+            continue
+        case = x["case"]
+        clean = x["runs"][0]
+        for r in x["runs"]:
+            ninit += 1
+            ninit_nt += r["ncalls"] >= 2
+            if not r["state_same"] or not r.get("rerun_state_same", True):
+                real_violation("C12:execute:initial-state-changed",
+                               "%s: initial_state handed to [%s, ...] differs afterwards: %s" % (SIM_NAMES[case["sim"]], case["first"], r.get("state_diff")), case, r)
+            if r.get("rerun_same_state") is False:
+                real_violation("C12:execute:re-execution-differs",
+                               "%s: executing [%s, ...] twice on the same initial_state gives different final states" % (SIM_NAMES[case["sim"]], case["first"]), case, r)
+            aliased = [pq for pq in r.get("shared_with_initial_state", []) if pq[1] in changed.get(case["sim"], set())]
+            if aliased:
+                real_violation("C12:execute:initial-state-aliased",
+                               "%s: the state the first step works on shares memory with the caller's initial_state in %s, an array that steps modify (State.copy must hand out fresh arrays)"
+                               % (SIM_NAMES[case["sim"]], aliased), case, r)
+            if not r.get("handed_same", True):
+                real_violation("C12:execute:array-parameter-modified", "ndarray handed to %s modified: %s" % (case["first"], r.get("handed_diff")), case, r)
+            if not r["config_same"]:
+                real_violation("C12:execute:user-config-changed", "attributes of the caller's Config differ afterwards", case, r)
+            for idx, (a0, a1) in enumerate(zip(r["prog_before"], r["prog_after"])):
+                if a0 != a1:
+                    real_violation("C12:execute:instruction-changed", "instruction %d (%s) differs afterwards: %s -> %s" % (idx, a0[0], a0, a1), case, r)
+    okrun = sum(1 for x in init_res if "runs" in x and x["runs"][0]["result"][0] == "ok")
+    chk.stream("initial_state argument x every instruction class of every simulator's _instruction_map as first step (in-place steps "
+               "included), then a gate; twice on the same objects; arrays of the caller's state byte-for-byte, final states equal, "
+               "no memory shared on arrays that steps modify (search; tie of C12_state_copy_fresh)", ninit, ninit_nt, kind="search",
+               samples=[{"sim": x["case"]["sim"], "first": x["case"]["first"], "result": x["runs"][0]["result"][:2]} for x in init_res if "runs" in x][:2],
+               note="%d programs (%d run to the end; the rest are refused, which is a failing run); arrays that steps modify: %s; not constructed: %s"
+                    % (sum(1 for x in init_res if "runs" in x), okrun, {k: sorted(v) for k, v in changed.items()}, skipped))
 
     # who writes the `random` module's state
     writers = [g["call"] for g in impl2["globals"] if not g["same"]]
